@@ -17,7 +17,9 @@ import common
 
 def run(replay=None):
     ck = common.Check("C12", level="proof")
+    rep = common.regen_translators()      # Gen/IntervalEnv_gen.v: rounding-mode events of every path of every Interval operation
     proof = ck.proof_obligations()
+    ck.coverage["translators"] = {k: v for k, v in rep.items() if "Env" in k or v != "ok"}
     ok_h, log_h = common.build_harness(["bin/fpenv"])
     if not ok_h:
         ck.violation("build", "harness does not build against /repo working tree", {"log": log_h[-3000:]}, no_input=True)
